@@ -57,6 +57,8 @@ RgoThorough == {0, 2, 3}
 StatsAll == {"true", "false", "auto"}
 StatsQuick == {"true", "auto"}
 V12 == {1, 2}
+OptDefault == {"default"}
+OptsAll == {"default", "int96", "explicit"}
 CodecNone == {"none"}
 CodecsAll == {"none", "SNAPPY", "GZIP", "ZSTD", "LZ4", "BROTLI"}
 CodecsSome == {"none", "SNAPPY", "GZIP"}
@@ -73,7 +75,7 @@ RgJson(g) == [start |-> g.start, len |-> g.len, optional |-> Bool(g.optional), d
               hasmm |-> Bool(g.hasmm), min |-> g.min, max |-> g.max]
 CaseJson == [cls |-> inp.cls.name, n |-> inp.n, nullpat |-> inp.nullpat, valpat |-> inp.valpat, mode |-> inp.mode,
              rppwant |-> inp.rppwant, pagebytes |-> PageBytes(inp), rpp |-> Rpp(inp), v |-> inp.v, rgo |-> inp.rgo,
-             stats |-> inp.stats, codec |-> inp.codec, rejected |-> Bool(pc = "rejected"), optional |-> Bool(Optional(inp)),
+             stats |-> inp.stats, codec |-> inp.codec, opt |-> inp.opt, rejected |-> Bool(pc = "rejected"), optional |-> Bool(Optional(inp)),
              rgs |-> [g \in DOMAIN rgs |-> RgJson(rgs[g])],
              cells |-> [i \in 1..inp.n |-> Decoded(i)]]
 Export == pc \in {"done", "rejected"} => PrintT(ToJson(CaseJson))
